@@ -165,6 +165,9 @@ static Co looper_body(Sub *s) {
         s->res = "none";
         if (!r) { s->pc = "eos"; break; }
         s->recv.push_back(s->obj->value());
+        // no scenario publishes more than a handful of values: a stream that never ends is a defect
+        // of the library (seen on the pinned tree after a polled end of stream), not a reason to hang
+        if (s->recv.size() > 64) { s->flag("while (co_await next()) does not terminate"); s->pc = "eos"; break; }
     }
 }
 
